@@ -89,6 +89,13 @@ def renderHex (rd : List UInt8) : List UInt8 :=
 def genericTail (sep rd : List UInt8) : List UInt8 :=
   sep ++ decimal rd.length ++ (if rd.isEmpty then [] else sep ++ renderHex rd)
 
+/-- octal digits of `n`, most significant first, no leading zeros (a Chaosnet address) -/
+def octalText (n : Nat) : List UInt8 :=
+  if h : n < 8 then [digitOctet n]
+  else octalText (n / 8) ++ [digitOctet (n % 8)]
+termination_by n
+decreasing_by omega
+
 /-- lower-case hexadecimal digits of `n`, no leading zeros (a group of an IPv6 address) -/
 def hexText (n : Nat) : List UInt8 :=
   if h : n < 16 then [hexDigitOctet n]
@@ -101,6 +108,15 @@ def groupsText : List Nat → List UInt8
   | [] => []
   | [g] => hexText g
   | g :: gs => hexText g ++ 58 :: groupsText gs
+
+/-- a dotted quad -/
+def quadText (a b c d : Nat) : List UInt8 := decimal a ++ 46 :: (decimal b ++ 46 :: (decimal c ++ 46 :: decimal d))
+
+/-- groups, a colon, and a dotted quad (just the quad if there are no groups) -/
+def groupsThenQuad (gs : List Nat) (Q : List UInt8) : List UInt8 :=
+  match gs with
+  | [] => Q
+  | _ :: _ => groupsText gs ++ 58 :: Q
 
 /-- the labels in wire form, without the root label -/
 def wireLabels (ls : List (List UInt8)) : List UInt8 := ls.flatMap fun l => UInt8.ofNat l.length :: l
@@ -210,6 +226,21 @@ abbrev PGap := List GapItem
 /-- a line ending: LF or CRLF -/
 def eolText (crlf : Bool) : List UInt8 := if crlf then [13, 10] else [10]
 
+/-- how a line of a file ends: LF, CRLF, or — the last line only — with the file -/
+inductive PEol where
+  | lf | crlf | eof
+  deriving Repr, DecidableEq, Inhabited
+
+def lineEnd : PEol → List UInt8
+  | .lf => [10]
+  | .crlf => [13, 10]
+  | .eof => []
+
+/-- the lines a line end adds to the count -/
+def eolLines : PEol → Nat
+  | .eof => 0
+  | _ => 1
+
 def gapItemText : GapItem → List UInt8
   | .blank tab => [if tab then 9 else 32]
   | .openParen => [40]
@@ -239,6 +270,33 @@ def gapRun : Bool → PGap → Option Bool
 /-- the `i`-th gap of a list; a single blank if the list is shorter -/
 def gapAt (gs : List PGap) (i : Nat) : PGap := gs.getD i [.blank false]
 
+/-! ### the WKS bit map (RFC 1035 §3.4.2)
+
+"The <BIT MAP> field … has one bit per port of the specified protocol.  The first bit
+corresponds to port 0, the second to port 1, etc."  Bits are numbered from the most significant
+one (§2.3.2: "the bit labeled 0 is the most significant bit"), so port `8 i + j` is the bit of
+value `2 ^ (7 - j)` of octet `i` (what BIND, NSD, ldns and dnspython write and read). -/
+
+/-- the octet whose bit `j`, counted from the most significant, is `c j` -/
+def octetOfBits (c : Nat → Bool) : UInt8 :=
+  UInt8.ofNat (((List.range 8).map fun j => if c j then 2 ^ (7 - j) else 0).sum)
+
+/-- octet `i` of the bit map of a port list -/
+def wksOctet (ports : List Nat) (i : Nat) : UInt8 := octetOfBits fun j => decide (8 * i + j ∈ ports)
+
+/-- the bit map: as many octets as the highest port needs, none without ports -/
+def wksBitmap (ports : List Nat) : List UInt8 :=
+  match ports.max? with
+  | none => []
+  | some hi => (List.range (hi / 8 + 1)).map (wksOctet ports)
+
+/-- WKS RDATA: address, protocol, bit map -/
+def wksWire (addr : List UInt8) (proto : Nat) (ports : List Nat) : List UInt8 :=
+  addr ++ UInt8.ofNat proto :: wksBitmap ports
+
+/-- an octet with its eight bits in the opposite order -/
+def revBits (b : UInt8) : UInt8 := octetOfBits fun j => b.toNat.testBit j
+
 /-! ### RDATA as written -/
 
 inductive PRdata where
@@ -252,6 +310,9 @@ inductive PRdata where
   | txt (s : PString) (ss : List PString)
   | hinfo (cpu os : PString)
   | aaaa (groups : List Nat)                                   -- IN AAAA: eight 16-bit groups, written in full
+  | chA (n : PName) (addr : Nat)                               -- CH A: network name and octal address
+  | aaaaC (hd tl : List Nat)                                   -- IN AAAA with `::` for the zero groups between `hd` and `tl`
+  | aaaaV4 (hd : List Nat) (tl : Option (List Nat)) (a b c d : Nat)  -- IN AAAA ending in a dotted quad; `tl = some _`: with `::`
   deriving Repr, Inhabited
 
 def u16Wire (n : Nat) : List UInt8 := [UInt8.ofNat (n / 256 % 256), UInt8.ofNat (n % 256)]
@@ -272,6 +333,9 @@ def kindOK (cls ty : Nat) : PRdata → Bool
   | .txt .. => ty == 16
   | .hinfo .. => ty == 13
   | .aaaa .. => cls == 1 && ty == 28
+  | .chA .. => cls == 3 && ty == 1
+  | .aaaaC .. => cls == 1 && ty == 28
+  | .aaaaV4 .. => cls == 1 && ty == 28
 
 /-- the second and later strings of TXT, each after its gap -/
 def txtRest (G : Nat → PGap) : Nat → List PString → List UInt8
@@ -295,6 +359,10 @@ def rdataText (G : Nat → PGap) : PRdata → List UInt8
   | .txt s ss => stringText s ++ txtRest G 0 ss
   | .hinfo c o => stringText c ++ (gapText (G 0) ++ stringText o)
   | .aaaa gs => groupsText gs
+  | .chA n a => nameText n ++ (gapText (G 0) ++ octalText a)
+  | .aaaaC hd tl => groupsText hd ++ (58 :: 58 :: groupsText tl)
+  | .aaaaV4 hd none a b c d => groupsThenQuad hd (quadText a b c d)
+  | .aaaaV4 hd (some tl) a b c d => groupsText hd ++ (58 :: 58 :: groupsThenQuad tl (quadText a b c d))
 
 /-- number of gaps inside the RDATA -/
 def rdataGaps : PRdata → Nat
@@ -308,6 +376,9 @@ def rdataGaps : PRdata → Nat
   | .txt _ ss => ss.length
   | .hinfo .. => 1
   | .aaaa .. => 0
+  | .chA .. => 1
+  | .aaaaC .. => 0
+  | .aaaaV4 .. => 0
 
 def txtLines (G : Nat → PGap) : Nat → List PString → Nat
   | _, [] => 0
@@ -327,6 +398,9 @@ def rdataLines (G : Nat → PGap) : PRdata → Nat
   | .txt s ss => stringLines s + txtLines G 0 ss
   | .hinfo c o => stringLines c + gapLines (G 0) + stringLines o
   | .aaaa .. => 0
+  | .chA n _ => nameLines n + gapLines (G 0)
+  | .aaaaC .. => 0
+  | .aaaaV4 .. => 0
 
 /-- the RDATA denoted (RFC 1035 §3.3, RFC 2782 wire formats); `none` if a name cannot be completed -/
 def rdataWire (origin : Option (List UInt8)) : PRdata → Option (List UInt8)
@@ -346,22 +420,29 @@ def rdataWire (origin : Option (List UInt8)) : PRdata → Option (List UInt8)
   | .txt s ss => some ((s :: ss).flatMap stringWire)
   | .hinfo c o => some (stringWire c ++ stringWire o)
   | .aaaa gs => some (gs.flatMap u16Wire)
+  | .chA n a => (nameWire origin n).map fun w => w ++ u16Wire a
+  | .aaaaC hd tl => some ((hd ++ List.replicate (8 - hd.length - tl.length) 0 ++ tl).flatMap u16Wire)
+  | .aaaaV4 hd none a b c d =>
+    some (hd.flatMap u16Wire ++ [UInt8.ofNat a, UInt8.ofNat b, UInt8.ofNat c, UInt8.ofNat d])
+  | .aaaaV4 hd (some tl) a b c d =>
+    some ((hd ++ List.replicate (8 - hd.length - (tl.length + 2)) 0 ++ tl).flatMap u16Wire ++
+      [UInt8.ofNat a, UInt8.ofNat b, UInt8.ofNat c, UInt8.ofNat d])
 
 /-! ### records and files — the presentation subset of `C23_records_partial`
 
   One entry per line — or, with parentheses, several.  Records: `[owner] [ttl] [class] type rdata
   [;comment]`.  The gaps between the fields and after the last one are any mix of blanks, `(`,
   `)` and — inside parentheses — line ends (LF or CRLF) with optional comments.  Lines end with
-  LF or CRLF.  Owner: an absolute name, a relative name (completed with the origin), `@`
+  LF or CRLF (the last one possibly with the end of the file).  Owner: an absolute name, a relative name (completed with the origin), `@`
   (the origin) — names in any mix of octet forms — or omitted (leading blanks: same owner as
   before).  TTL and class written (decimal; mnemonic in any case or `CLASSnnn`; in either order)
   or omitted.  Type: mnemonic in any case or `TYPEnnn`.  RDATA: the RFC 3597 form `\# len hex`
   for any class and type, or the typed syntax of A, NS/MD/MF/CNAME/MB/MG/MR/PTR, MX, SOA, MINFO,
-  SRV, TXT, HINFO, AAAA (names relative / absolute / `@`; character-strings quoted or unquoted with
+  SRV, TXT, HINFO, AAAA (in full, with `::`, with a dotted-quad suffix), Chaosnet A (names relative / absolute / `@`; character-strings quoted or unquoted with
   escapes).  Directives: `$ORIGIN <absolute name>`, `$TTL <decimal>`,
   `$INCLUDE <path> [<origin>]`.  Blank and comment-only
-  lines.  Not in this subset (see C23.lean): `::`-compressed or IPv4-suffixed AAAA, WKS and Chaosnet A typed syntax, parentheses
-  in directives, a last line without newline. -/
+  lines.  The last line may end with the file instead
+  of a line end.  Not in this subset (see C23.lean): the typed syntax of WKS. -/
 
 inductive POwner where
   | same
@@ -381,16 +462,19 @@ structure PRecord where
   gaps : List PGap         -- gap 0: between type and RDATA; gap i+1: after the i-th RDATA field
   tail : PGap              -- after the last field (closes the parentheses, if open)
   comment : List UInt8
-  crlf : Bool
+  eol : PEol
   deriving Repr, Inhabited
 
 inductive PEntry where
-  | blank (ws comment : List UInt8) (crlf : Bool)
+  | blank (ws comment : List UInt8) (eol : PEol)
   | record (p : PRecord)
-  | origin (ls : List PLabel) (sep trail comment : List UInt8) (crlf : Bool)
-  | ttl (n : Nat) (sep trail comment : List UInt8) (crlf : Bool)
-  /-- `$INCLUDE <path> [<origin>]`: the path a string (quoted or not), the origin a name -/
-  | incl (path : PString) (origin : Option PName) (sep sep2 trail comment : List UInt8) (crlf : Bool)
+  /-- `$ORIGIN <absolute name>`; `gap` after the keyword, `tail` after the name -/
+  | origin (ls : List PLabel) (gap tail : PGap) (comment : List UInt8) (eol : PEol)
+  /-- `$TTL <decimal>` -/
+  | ttl (n : Nat) (gap tail : PGap) (comment : List UInt8) (eol : PEol)
+  /-- `$INCLUDE <path> [<origin>]`: the path a string (quoted or not), the origin a name; `gap2`
+      stands between them -/
+  | incl (path : PString) (origin : Option PName) (gap gap2 tail : PGap) (comment : List UInt8) (eol : PEol)
   deriving Repr, Inhabited
 
 def ownerText : POwner → List UInt8
@@ -418,20 +502,20 @@ def renderRecord (p : PRecord) : List UInt8 :=
   ownerText p.owner ++ gapText (gapAt p.head 0) ++
   ttlClassText (gapText (gapAt p.head 1)) (gapText (gapAt p.head 2)) p.ttl p.cls p.clsFirst ++
   typeText p.ty ++ gapText (gapAt p.gaps 0) ++ rdataText (fun i => gapAt p.gaps (i + 1)) p.rdata ++
-  (gapText p.tail ++ (p.comment ++ eolText p.crlf))
+  (gapText p.tail ++ (p.comment ++ lineEnd p.eol))
 
 def renderEntry : PEntry → List UInt8
-  | .blank ws comment crlf => ws ++ comment ++ eolText crlf
+  | .blank ws comment eol => ws ++ comment ++ lineEnd eol
   | .record p => renderRecord p
-  | .origin ls sep trail comment crlf =>
-    [36, 79, 82, 73, 71, 73, 78] ++ sep ++ renderAbsName ls ++ trail ++ comment ++ eolText crlf   -- `$ORIGIN`
-  | .ttl n sep trail comment crlf =>
-    [36, 84, 84, 76] ++ sep ++ decimal n ++ trail ++ comment ++ eolText crlf                       -- `$TTL`
-  | .incl path origin sep sep2 trail comment crlf =>
-    [36, 73, 78, 67, 76, 85, 68, 69] ++ sep ++ stringText path ++                                  -- `$INCLUDE`
+  | .origin ls gap tail comment eol =>
+    [36, 79, 82, 73, 71, 73, 78] ++ gapText gap ++ renderAbsName ls ++ gapText tail ++ comment ++ lineEnd eol   -- `$ORIGIN`
+  | .ttl n gap tail comment eol =>
+    [36, 84, 84, 76] ++ gapText gap ++ decimal n ++ gapText tail ++ comment ++ lineEnd eol                       -- `$TTL`
+  | .incl path origin gap gap2 tail comment eol =>
+    [36, 73, 78, 67, 76, 85, 68, 69] ++ gapText gap ++ stringText path ++                                          -- `$INCLUDE`
       (match origin with
-       | some n => sep2 ++ nameText n
-       | none => []) ++ trail ++ comment ++ eolText crlf
+       | some n => gapText gap2 ++ nameText n
+       | none => []) ++ gapText tail ++ comment ++ lineEnd eol
 
 def renderFile (es : List PEntry) : List UInt8 := es.flatMap renderEntry
 
@@ -524,15 +608,18 @@ inductive SItem where
 def denoteFile (valid : Nat → Nat → List UInt8 → Bool) : List PEntry → SCtx → Nat → Option (List SItem)
   | [], _, _ => some []
   | .blank _ _ _ :: es, c, line => denoteFile valid es c (line + 1)
-  | .origin ls _ _ _ _ :: es, c, line =>
-    denoteFile valid es { c with origin := some (wireName (ls.map labelOctets)) } (line + labelLines ls + 1)
-  | .ttl n _ _ _ _ :: es, c, line => denoteFile valid es { c with defaultTtl := some (ttlValue n) } (line + 1)
-  | .incl path origin _ _ _ _ _ :: es, c, line => do
+  | .origin ls gap tail _ _ :: es, c, line =>
+    denoteFile valid es { c with origin := some (wireName (ls.map labelOctets)) }
+      (line + gapLines gap + labelLines ls + gapLines tail + 1)
+  | .ttl n gap tail _ _ :: es, c, line =>
+    denoteFile valid es { c with defaultTtl := some (ttlValue n) } (line + gapLines gap + gapLines tail + 1)
+  | .incl path origin gap gap2 tail _ _ :: es, c, line => do
     let o ← match origin with
       | some n => (nameWire c.origin n).map some
       | none => some c.origin
     let rest ← denoteFile valid es c
-      (line + stringLines path + (match origin with | some n => nameLines n | none => 0) + 1)
+      (line + gapLines gap + stringLines path +
+        (match origin with | some n => gapLines gap2 + nameLines n | none => 0) + gapLines tail + 1)
     pure (.incl line (stringOctets path) o :: rest)
   | .record p :: es, c, line => do
     let (r, c') ← denoteRecord valid c line p
